@@ -182,7 +182,7 @@ package corerad
 //@   assigns ghost.done
 //@   opt safety [C10]
 
-//@ macro msgOK(m) = m != nil && m.val > 0 && (isType(m, "*ndp.RouterAdvertisement") ==> optsOK(as(m, "*ndp.RouterAdvertisement").Options))
+//@ macro msgOK(m) = m != nil && m.val > 0 && (isType(m, "*ndp.RouterAdvertisement") ==> optsOK(as(m, "*ndp.RouterAdvertisement").Options)) && (isType(m, "*ndp.RouterAdvertisement") ==> raWireOK(as(m, "*ndp.RouterAdvertisement")))
 //@ funcparam corerad.(*listener).Listen.onMessage(msg) (err)
 //@   requires R1: msgOK(msg.Message)
 //@   assigns everything
@@ -547,7 +547,7 @@ package corerad
 //@   assigns ghost.monSamples
 //@   ensures M1: ghost.monSamples == old(ghost.monSamples) + 1
 
-//@ macro monOK(m) = m.cctx != nil && m.cctx.mm != nil && m.now != nil && m.cctx.mm.MonMessagesReceivedTotal != nil && m.cctx.mm.MonFlagManaged != nil && m.cctx.mm.MonFlagOther != nil && m.cctx.mm.MonDefaultRouteExpirationTime != nil && m.cctx.mm.MonPrefixAutonomous != nil && m.cctx.mm.MonPrefixOnLink != nil && m.cctx.mm.MonPrefixPreferredLifetimeExpirationTime != nil && m.cctx.mm.MonPrefixValidLifetimeExpirationTime != nil
+//@ macro monOK(m) = m.cctx != nil && m.cctx.mm != nil && m.cctx.mm.MessagesReceivedInvalidTotal != nil && m.now != nil && m.cctx.mm.MonMessagesReceivedTotal != nil && m.cctx.mm.MonFlagManaged != nil && m.cctx.mm.MonFlagOther != nil && m.cctx.mm.MonDefaultRouteExpirationTime != nil && m.cctx.mm.MonPrefixAutonomous != nil && m.cctx.mm.MonPrefixOnLink != nil && m.cctx.mm.MonPrefixPreferredLifetimeExpirationTime != nil && m.cctx.mm.MonPrefixValidLifetimeExpirationTime != nil
 // durations decoded from the wire are non-negative and at most 2^32-1 seconds
 //@ macro wireDur(d) = 0 <= d && d <= ndpInfinity
 //@ macro raWireOK(ra) = wireDur(ra.RouterLifetime) && forall(k, 0, len(ra.Options), isType(ra.Options[k], "*ndp.PrefixInformation") ==> wireDur(as(ra.Options[k], "*ndp.PrefixInformation").ValidLifetime) && wireDur(as(ra.Options[k], "*ndp.PrefixInformation").PreferredLifetime))
@@ -726,12 +726,59 @@ package corerad
 // advertise.go: Run's per-connection body (C08 ordering, C10)
 
 //@ ghost var shutdowns Int
+// advertise: the four members of the interface task (scheduler, multicast
+// generator unless unicast-only, listener, link watcher) are each started
+// exactly once under one errgroup whose derived context they all share, and the
+// function returns only after Wait. E1 (the result is never nil) and the
+// preserved components are ASSUMED: they need errgroup semantics across
+// goroutines (Wait() == nil implies every member returned nil, which each does
+// only after the shared context is done).
 //@ func (*Advertiser).advertise
+//@   ghost local s1 Bool
+//@   ghost local s2 Bool
+//@   ghost local s3 Bool
+//@   ghost local s4 Bool
+//@   ghost local waited Bool
 //@   requires P1: ctx != nil && conn != nil && advOK(a) && ifiOK(a.cfg) && a.minDelayBetweenRAs > 0 && a.minDelayBetweenRAs <= secs(3600)
+//@   requires P2: !a.cfg.UnicastOnly ==> validIntervals(a.cfg.MinInterval, a.cfg.MaxInterval)
 //@   assigns everything
 //@   opt preserves ghost.shutdowns, heap(corerad.Advertiser), heap(corerad.Context), heap(corerad.Metrics), heap(plugin.Prefix), heap(plugin.Route), heap(plugin.RDNSS), heap(plugin.DNSSL), heap(plugin.MTU), heap(plugin.LLA), heap(plugin.CaptivePortal), heap(plugin.PREF64), heap(ndp.PREF64), heap(ndp.CaptivePortal), mem(plugin.Plugin), mem(string), mem(netip.Addr), heap(system.DialContext)
+//@   opt assume E1, preserves
+//@   at call Go(g, f) when isClosure(f, "corerad.(*Advertiser).advertise$1"): assert G1 [C05,C06,C07,C10]: !ghost.s1 && !ghost.waited ; ghost.s1 = true
+//@   at call Go(g, f) when isClosure(f, "corerad.(*Advertiser).advertise$2"): assert G2 [C05,C07,C10]: !ghost.s2 && !ghost.waited && !a.cfg.UnicastOnly ; ghost.s2 = true
+//@   at call Go(g, f) when isClosure(f, "corerad.(*Advertiser).advertise$3"): assert G3 [C05,C07,C09,C10]: !ghost.s3 && !ghost.waited ; ghost.s3 = true
+//@   at call linkStateWatcher(lctx, lw) (lf): assert G4 [C10]: !ghost.s4 && !ghost.waited && lw == a.watchC && lctx != nil ; ghost.s4 = true
+//@   at call Wait(g) (werr): assert W1 [C05,C07,C10]: ghost.s1 && ghost.s3 && ghost.s4 && ghost.s2 == !a.cfg.UnicastOnly && !ghost.waited ; ghost.waited = true
 //@   ensures E1: result != nil
-//@   opt trusted the errgroup body is verified member by member (schedule, multicast, Listen, linkStateWatcher); that Wait()==nil implies the shared context is done needs errgroup semantics across goroutines
+//@   ensures E2 [C05,C07,C10]: ghost.waited
+//@   opt safety [C10]
+
+//@ func linkStateWatcher
+//@   assigns brk
+//@   ensures E1 [C10]: result != nil && isClosure(result, "corerad.linkStateWatcher$1")
+
+// The errgroup members: each runs its function with the variables advertise
+// declared (context, connection, request channel).
+//@ func (*Advertiser).advertise$1
+//@   opt capture CAP
+//@   requires CAP [C06,C07,C10]: ctx != nil && conn != nil && ipC != nil && a != nil && advOK(a) && ifiOK(a.cfg) && a.minDelayBetweenRAs > 0 && a.minDelayBetweenRAs <= secs(3600)
+//@   assigns everything
+//@   at call schedule(sa, sctx, sconn, sipC) (serr): assert S1 [C06,C07,C10]: sa == a && sctx == ctx && sconn == conn && sipC == ipC
+//@   opt safety [C10]
+//@ func (*Advertiser).advertise$2
+//@   opt capture CAP
+//@   requires CAP [C05,C10]: ctx != nil && ipC != nil && a != nil && advOK(a) && ifiOK(a.cfg) && validIntervals(a.cfg.MinInterval, a.cfg.MaxInterval)
+//@   assigns everything
+//@   at call multicast(ma, mctx, mipC): assert M1 [C05,C10]: ma == a && mctx == ctx && mipC == ipC
+//@   ensures E1 [C05]: result == nil
+//@   opt safety [C10]
+//@ func (*Advertiser).advertise$3
+//@   opt capture CAP
+//@   requires CAP [C07,C09,C10]: ctx != nil && conn != nil && ipC != nil && a != nil && advOK(a) && ifiOK(a.cfg) && a.cctx != nil
+//@   assigns everything
+//@   at call newListener(lcc, lname, lconn) (ll): assert L1 [C09,C10]: lconn == conn && lcc == a.cctx
+//@   at call Listen(ll2, lctx, lfn) (lerr): assert L2 [C07,C09,C10]: lctx == ctx && isClosure(lfn, "corerad.(*Advertiser).advertise$3$1")
+//@   opt safety [C10]
 
 // The closure Run hands to Dialer.Dial: prepare, initial RA, advertise, and on
 // cancellation the final RA - strictly after advertise has returned.
@@ -740,10 +787,10 @@ package corerad
 //@   ghost local advErr Iface
 //@   ghost local sd Int
 //@   opt capture CAP
-//@   requires CAP [C08]: a != nil && advOK(a) && ifiCfgOK(a.cfg) && a.terminate != nil && a.minDelayBetweenRAs > 0 && a.minDelayBetweenRAs <= secs(3600)
+//@   requires CAP [C08]: a != nil && advOK(a) && ifiCfgOK(a.cfg) && a.terminate != nil && a.minDelayBetweenRAs > 0 && a.minDelayBetweenRAs <= secs(3600) && (!a.cfg.UnicastOnly ==> validIntervals(a.cfg.MinInterval, a.cfg.MaxInterval))
 //@   requires P1: ctx != nil && dctx != nil && dctx.Conn != nil
 //@   assigns everything
-//@   loop 1 invariant L1 [C08]: 0 <= rangeindex + 1 && rangeindex + 1 <= len(a.cfg.Plugins) && a != nil && advOK(a) && ifiCfgOK(a.cfg) && a.terminate != nil && a.minDelayBetweenRAs > 0 && a.minDelayBetweenRAs <= secs(3600) && ctx != nil && dctx != nil && dctx.Conn != nil && !ghost.advDone && ghost.sd == 0
+//@   loop 1 invariant L1 [C08]: 0 <= rangeindex + 1 && rangeindex + 1 <= len(a.cfg.Plugins) && a != nil && advOK(a) && ifiCfgOK(a.cfg) && a.terminate != nil && a.minDelayBetweenRAs > 0 && a.minDelayBetweenRAs <= secs(3600) && (!a.cfg.UnicastOnly ==> validIntervals(a.cfg.MinInterval, a.cfg.MaxInterval)) && ctx != nil && dctx != nil && dctx.Conn != nil && !ghost.advDone && ghost.sd == 0
 //@   at call advertise(aa, actx, aconn) (aerr): ghost.advDone = true ; ghost.advErr = aerr
 //@   at call shutdown(sa, sconn): assert S1 [C08]: ghost.advDone && errIs(ghost.advErr, global("context.Canceled")) && ghost.sd == 0 ; ghost.sd = ghost.sd + 1
 //@   ensures E1 [C08]: ghost.advDone && errIs(ghost.advErr, global("context.Canceled")) ==> result == nil && ghost.sd == 1
@@ -789,3 +836,78 @@ package corerad
 //@   assigns everything
 //@   ensures E1 [C20]: ghost.watchErr == nil || errIs(ghost.watchErr, global("os.ErrNotExist")) ==> result == nil
 //@   ensures E2 [C20]: ghost.watchErr != nil && !errIs(ghost.watchErr, global("os.ErrNotExist")) ==> result != nil
+
+// ---------------------------------------------------------------------------
+// monitor.go: the monitoring task (C18): every message the listener delivers is
+// handed to Monitor.handle exactly once, with the sender's textual address.
+
+//@ func (*Monitor).monitor$1$1
+//@   ghost local handled Int
+//@   opt capture CAP
+//@   opt refines funcparam:corerad.(*listener).Listen.onMessage
+//@   opt refinetags [C18,C09]
+//@   requires CAP [C18]: m != nil && monOK(m)
+//@   assigns everything
+//@   at call handle(hm, hmsg, hhost): assert H1 [C18]: hm == m && hmsg == msg.Message && hhost == addrStrOf(msg.Host) && ghost.handled == 0 ; ghost.handled = ghost.handled + 1
+//@   ensures E1 [C18]: ghost.handled == 1 && result == nil
+//@   opt safety [C18]
+//@ funcfield corerad.Monitor.OnMessage(om)
+//@   assigns everything
+//@   opt preserves ghost.egNeeds, heap(corerad.listener), heap(corerad.Context), heap(corerad.Metrics), heap(corerad.Monitor)
+
+//@ func (*Monitor).monitor$1
+//@   opt capture CAP
+//@   requires CAP [C18]: ctx != nil && conn != nil && m != nil && monOK(m)
+//@   assigns everything
+//@   at call newListener(lcc, lname, lconn) (ll): assert L1 [C18]: lconn == conn && lcc == m.cctx && lname == m.iface
+//@   at call Listen(ll2, lctx, lfn) (lerr): assert L2 [C18]: lctx == ctx && isClosure(lfn, "corerad.(*Monitor).monitor$1$1")
+//@   opt safety [C18]
+
+//@ func (*Monitor).monitor
+//@   ghost local s1 Bool
+//@   ghost local s2 Bool
+//@   ghost local waited Bool
+//@   requires P1: ctx != nil && conn != nil && m != nil && monOK(m)
+//@   assigns everything
+//@   opt assume E1
+//@   at call Go(g, f) when isClosure(f, "corerad.(*Monitor).monitor$1"): assert G1 [C18]: !ghost.s1 && !ghost.waited ; ghost.s1 = true
+//@   at call linkStateWatcher(lctx, lw) (lf): assert G2 [C18]: !ghost.s2 && !ghost.waited && lw == m.watchC ; ghost.s2 = true
+//@   at call Wait(g) (werr): assert W1 [C18]: ghost.s1 && ghost.s2 && !ghost.waited ; ghost.waited = true
+//@   ensures E1: result != nil
+//@   ensures E2 [C18]: ghost.waited
+//@   opt safety [C18]
+
+// The closure Monitor.Run hands to the Dialer: one monitor run per connection;
+// cancellation is success, any other error goes back to the Dialer unchanged.
+//@ func (*Monitor).Run$1
+//@   ghost local ran Bool
+//@   ghost local monErr Iface
+//@   opt capture CAP
+//@   requires CAP [C10,C18]: m != nil && monOK(m)
+//@   requires P1: ctx != nil && dctx != nil && dctx.Conn != nil
+//@   assigns everything
+//@   at call monitor(mm, mctx, mconn): assert M1 [C10,C18]: mm == m && mctx == ctx && mconn == dctx.Conn && !ghost.ran
+//@   at call monitor(mm, mctx, mconn) (merr): ghost.ran = true ; ghost.monErr = merr
+//@   ensures E1 [C10,C18]: ghost.ran
+//@   ensures E2 [C10]: errIs(ghost.monErr, global("context.Canceled")) ==> result == nil
+//@   ensures E3 [C10]: !errIs(ghost.monErr, global("context.Canceled")) ==> result == ghost.monErr && result != nil
+//@   opt safety [C10]
+
+// Run: the whole task is the Dialer's loop around the closure above.
+//@ func (*Monitor).Run
+//@   ghost local dialed Bool
+//@   ghost local dres Iface
+//@   requires P1: m != nil && monOK(m) && m.dialer != nil && m.dialer.DialFunc != nil && ctx != nil && ghost.openConns == 0 && !ghost.acHeld
+//@   assigns everything
+//@   at call Dial(dd, dctx2, dfn): assert D1 [C10,C18]: dd == m.dialer && dctx2 == ctx && isClosure(dfn, "corerad.(*Monitor).Run$1") && !ghost.dialed
+//@   at call Dial(dd, dctx2, dfn) (derr): ghost.dialed = true ; ghost.dres = derr
+//@   ensures E1 [C10]: ghost.dialed && result == ghost.dres
+//@ func (*Advertiser).Run
+//@   ghost local dialed Bool
+//@   ghost local dres Iface
+//@   requires P1: a != nil && advOK(a) && ifiCfgOK(a.cfg) && a.terminate != nil && a.minDelayBetweenRAs > 0 && a.minDelayBetweenRAs <= secs(3600) && (!a.cfg.UnicastOnly ==> validIntervals(a.cfg.MinInterval, a.cfg.MaxInterval))
+//@   requires P2: a.dialer != nil && a.dialer.DialFunc != nil && ctx != nil && ghost.openConns == 0 && !ghost.acHeld
+//@   assigns everything
+//@   at call Dial(dd, dctx2, dfn): assert D1 [C10,C08]: dd == a.dialer && dctx2 == ctx && isClosure(dfn, "corerad.(*Advertiser).Run$1") && !ghost.dialed
+//@   at call Dial(dd, dctx2, dfn) (derr): ghost.dialed = true ; ghost.dres = derr
+//@   ensures E1 [C10,C08]: ghost.dialed && result == ghost.dres
